@@ -38,6 +38,8 @@ SHAPES = [
     ("iface", 'Query.node(id="7").fields(NodeInterface.id).on("User", UserFields.user_name)', {"id": ("ID!", "7")}),
     ("siblings_same_arg", 'Query.me().fields(UserFields.friends(first=1).alias("a").fields(UserFields.id), UserFields.friends(first=2).alias("b").fields(UserFields.id))',
      {"first": ("Int", 1), "first#2": ("Int", 2)}),
+    ("siblings_three", 'Query.me().fields(UserFields.friends(first=1).alias("a").fields(UserFields.id), UserFields.friends(first=2).alias("b").fields(UserFields.id), UserFields.friends(first=3).alias("c").fields(UserFields.id))',
+     {"first": ("Int", 1), "first#2": ("Int", 2), "first#3": ("Int", 3)}),
     ("same_arg_parent_child", 'Query.users(ids=None, first=5).fields(UserFields.friends(first=6).fields(UserFields.id))' if False else
      'Query.user(id="9").fields(UserFields.posts(after="p").fields(PostFields.author().fields(UserFields.posts(after="q").fields(PostFields.title))))',
      {"id": ("ID!", "9"), "after": ("String", "p"), "after#2": ("String", "q")}),
